@@ -63,6 +63,9 @@ def to_wire(v):
         return {"dec": [s, list(d), str(e)]}
     if t is uuid.UUID:
         return {"uuid": "%032x" % v.int}
+    if isinstance(v, dict):
+        # dict subclasses (OrderedDict, defaultdict, ...) are mappings like any other to the writers and validators
+        return {"d": [[to_wire(k), to_wire(x)] for k, x in v.items()]}
     if t is array.array:
         # validators and writers treat an array.array like any other sequence: the model is handed its items
         return {"l": [to_wire(x) for x in v]}
